@@ -2,6 +2,11 @@ HOOK_COMMITS = ["9fc801b"]
 FIX_COMMITS = ["ff3b5f3", "ffa19d7", "9d7c7c0", "b2f9896"]
 NOT_APPLICABLE = {}
 TEXT = {
+    "C20": {
+        "level": "Kernel-checked: is_agg_param_valid (model) holds exactly when no parameter was used before or the level strictly exceeds the most recent level and every candidate extends a most recent candidate (valid_iff, all histories, all well-formed parameters); admissible histories are exactly chains of strict refinements (admissible_iff, induction over histories); try_from_prefixes accepts exactly non-empty lists of equal-length (1..65536 bits), strictly increasing prefixes, fewer than 2^32 (ctor_accepts_iff); every byte string the decoder accepts encodes a parameter the constructor accepts (decoder_accepts_ctor); Prio3/Prio2 accept only the first use. The model is compared with the real code exhaustively for small bit lengths.",
+        "note": "Trusted: Lean kernel, propext/Classical.choice/Quot.sound, the hand-written model of try_from_prefixes / is_agg_param_valid (validated by the exhaustive correspondence), bitvec's ordering.",
+        "technique": "Lean 4 proof + exhaustive small-domain differential correspondence",
+    },
     "C07": {
         "level": "Kernel-checked theorems over a grammar of wire formats (Fmt): decode(encode v) = v, every accepted byte string re-encodes to itself (so no value has two encodings), trailing bytes / unreduced field elements / non-zero padding bits / unknown tags are rejected, and the encoded_len formulas are exact -- proved once for every format, then instantiated for every protocol message and every decoding parameter. The message formats are tied to the Rust decoders by a differential run on honest, mutated, truncated, extended, short and extreme byte strings.",
         "note": "Trusted: Lean kernel, propext/Classical.choice/Quot.sound, the hand-written format functions (validated by the correspondence), the harness. serde encodings not covered.",
